@@ -53,8 +53,8 @@ TEXT = {
     "C10": {
         "technique": "deterministic simulation with crash/torn-write enumeration: dry run lists every crash point and cache write, then kill at each point and at byte prefixes of each write, then seeded continuations judged by the reference model",
         "design_ref": "DESIGN.md section 5 C10, section 3.4",
-        "level_text": "Fault enumeration per sampled history: for every generated prefix the killed invocation is first run dry to list all crash points (cache.init.*, run.task.before/after, task.cmd.before/after, run.dump.before/after) and all cache writes; it is then repeated from the same disk snapshot once per crash point and once per byte prefix of each cache write (quick: k in {0,1,len/2,len-1,len}+4 seeded; thorough: every k for a third of the cases), dying there or (1 in 3) returning ENOSPC/EIO; each is followed by 2-3 continuations of edits/reverts and unforced runs. A later reported skip must be legal w.r.t. last[] updated with what completed before the kill, a later failure must mention the cache. Exhaustive over crash points per history, sampling over histories.",
-        "level_note": "Trusted: at level L2 kill = sentinel panic at a simhook.Point (deferred calls run but write no project state) and torn write = O_TRUNC + k bytes, as os.WriteFile would leave it; 1 case in 15 (quick) / 5 (thorough) is repeated at level L3 with a real SIGKILL sent from inside every command position of the run (kill -9 $$) and cache.json truncated between invocations. No power-loss semantics.",
+        "level_text": "Fault enumeration per sampled history: for every generated prefix the killed invocation is first run dry to list all crash points (cache.init.*, run.task.before/after, task.cmd.before/after, run.dump.before/after) and all cache writes; it is then repeated from the same disk snapshot once per crash point and once per byte prefix of each cache write (quick: k in {0,1,len/2,len-1,len}+4 seeded; thorough: every k for a third of the cases), dying there or (1 in 3) returning ENOSPC/EIO, and twice per write dying with the complete new contents under a temporary-looking sibling name and cache.json untouched (a kill between write-temporary and rename); each is followed by 2-3 continuations of edits/reverts and unforced runs. A later reported skip must be legal w.r.t. last[] updated with what completed before the kill, a later failure must mention the cache. Exhaustive over crash points per history, sampling over histories.",
+        "level_note": "Trusted: at level L2 kill = sentinel panic at a simhook.Point (deferred calls run but write no project state) and torn write = O_TRUNC + k bytes, as os.WriteFile would leave it; 1 case in 15 (quick) / 5 (thorough) is repeated at level L3 with a real SIGKILL sent from inside every command position of the run (kill -9 $$), cache.json truncated between invocations, and the whole invocation run under a file size limit (RLIMIT_FSIZE via prlimit: every write beyond k bytes is cut short and fails with EFBIG, a full disk inside the cache writes). No power-loss semantics.",
     },
     "C17": {
         "technique": "deterministic simulation: seeded directory chains, bounded-liveness step budget at the ReadDir seam, ReadDir failure injection",
@@ -81,10 +81,10 @@ TEXT = {
         "level_note": "Trusted: mvdan/sh's echo builtin prints its argument verbatim for the generated value alphabet; the model's join = filepath.Join of absolute arguments.",
     },
     "C19": {
-        "technique": "deterministic simulation: seeded action sequences over evolving project trees, per-invocation disk snapshot diff against the action's write frame",
+        "technique": "deterministic simulation with fault injection: seeded action sequences over evolving project trees, a cache file left damaged by an interrupted earlier run, a file size limit (disk full) striking inside the writes of one invocation of the real binary; per-invocation disk snapshot diff against the action's write frame",
         "design_ref": "DESIGN.md section 5 C19",
-        "level_text": "Seeded exploration: project trees with decoys x valid / syntactically broken / load-failing spokfiles x sequences of 2-6 invocations over every action and flag combination from the root and nested directories (state created by one action — cache directory, .gitignore lines, a demo spokfile in a nested directory — is present for the next); after every invocation the full snapshot diff of $HOME must lie inside {.spok/** next to the spokfile in use} plus the action's own frame (--fmt: the spokfile, only if it parses and loads; --init: a new spokfile and an appended .gitignore in cwd, nothing if a spokfile exists; everything else: nothing).",
-        "level_note": "Trusted: snapshot comparison (path, mode, content) of the whole simulated $HOME; the side-effect log and control scripts live outside $HOME.",
+        "level_text": "Seeded exploration: project trees with decoys x valid / syntactically broken / load-failing spokfiles x sequences of 2-6 invocations over every action and flag combination from the root and nested directories (state created by one action — cache directory, .gitignore lines, a demo spokfile in a nested directory — is present for the next); after every invocation the full snapshot diff of $HOME must lie inside {.spok/** next to the spokfile in use} plus the action's own frame (--fmt: the spokfile, only if it parses and loads; --init: a new spokfile and an appended .gitignore in cwd, nothing if a spokfile exists; everything else: nothing). One case in eight damages the cache file (half, empty, garbage) before one invocation; one case in ten runs one invocation (biased to --fmt and --init) under a file size limit of 1-1000 bytes at level L3 (real binary under prlimit --fsize): a write that fails half way may leave the file it was writing incomplete, never anything outside the frame.",
+        "level_note": "Trusted: snapshot comparison (path, mode, content) of the whole simulated $HOME; the side-effect log and control scripts live outside $HOME. The file size limit exists at level L3 only (it would hit the simulator's own files in-process); those cases always run at L3 as well.",
     },
     "C20": {
         "technique": "deterministic simulation: seeded first and repeated runs under the seeded dag order, report compared with the side-effect log written by the commands",
